@@ -139,6 +139,8 @@ def record_direct(sc):
         ids = np.arange(bi * bs, (bi + 1) * bs)
         batch = dict(d=np.array([decode(x) for x in ds], dtype=float), S1=ids + 10000.0, t1=ids / 1024.0)
         r.update(batch, bi)
+        if bi in sc.get("peek_after", ()):
+            r.extract_result()          # looking at the intermediate result must not disturb the run
         rows = batch_rows(batch, idT)
         cons.update({x[0]: x[2] for x in rows})
         tr["events"].append(dict(ev="update", rows=rows, obs=project(r, idT, cons)))
@@ -235,6 +237,8 @@ def scenarios(ctx):
         if mode == "thr":   # make sure the run can finish: plenty of acceptable draws at the end
             batches += [[0] * bs for _k in range(n + 2)]
         sc["batches"] = batches
+        if rnd.random() < 0.3:
+            sc["peek_after"] = sorted(rnd.sample(range(len(batches)), min(len(batches), rnd.randint(1, 2))))
         out.append(sc)
     # end to end through the engine
     n_e2e = 150 if ctx.quick else 1500
@@ -275,11 +279,13 @@ def is_f2(sc, tr, verdict):
     res = tr["events"][-1]
     if res["ev"] != "result" or not res["rows"]:
         return False
-    thr = sc.get("thr") if sc["mode"] == "thr" else None
+    if sc["mode"] == "thr":
+        return False        # with a threshold, inf / nan draws are never eligible: a filler in the result is never F2
+    thr = None
     cons = consumed_draws(tr)
-    finite_elig = [d for (_i, d) in cons if d < INF_CODE and (thr is None or d <= thr)]
-    if len(finite_elig) >= sc["n"]:
-        return False
+    finite_elig = [d for (_i, d) in cons if d < INF_CODE]
+    if len(finite_elig) >= sc["n"] or len(cons) < sc["n"] or not any(d >= INF_CODE for (_i, d) in cons):
+        return False        # F2 needs: enough consumed draws, some of them inf / nan, fewer than n_samples finite ones
     ids = {i for (i, _d) in cons}
     bad_rows = [r for r in res["rows"] if r[0] not in ids or r[0] != r[1]]
     # every offending row must be a filler: distance inf, payload not a draw
